@@ -124,12 +124,10 @@ def check_index_model(case):
 
     d, S = case["d"], case["S"]
     x = gen.build_matrix(case["x"])
-    x0 = x.copy()
     exp = ref.partial_trace(x, S, d)
     out = partial_trace(x, _sys_arg(S, case["sysform"]), list(d))
     _cmp(out, exp, _exact(case["x"]), "partial_trace", scale=_scale(x))
     _dtype_ok(out, case["x"]["dtype"])
-    req(np.array_equal(x, x0), "partial_trace modified its input matrix", "input-mutated")
 
 
 def nt_index(case):
@@ -425,10 +423,10 @@ def nt_cvx(case):
 
 
 SUBCHECKS = [
-    SubCheck("index_model", check_index_model, _index_case, nt_index, quick=8000, thorough=150000),
-    SubCheck("linear_trace", check_linear_trace, _linear_case, nt_linear, quick=2500, thorough=45000),
-    SubCheck("product", check_product, _product_case, nt_product, quick=2500, thorough=45000),
-    SubCheck("compose_order", check_compose, _compose_case, nt_compose, quick=2500, thorough=45000),
+    SubCheck("index_model", check_index_model, _index_case, nt_index, quick=24000, thorough=400000),
+    SubCheck("linear_trace", check_linear_trace, _linear_case, nt_linear, quick=7000, thorough=120000),
+    SubCheck("product", check_product, _product_case, nt_product, quick=7000, thorough=120000),
+    SubCheck("compose_order", check_compose, _compose_case, nt_compose, quick=7000, thorough=120000),
     SubCheck("scalar_omitted_enum", check_forms, None, nt_forms, cases=_forms_cases, exhaustive=True),
-    SubCheck("cvxpy", check_cvxpy, _cvx_case, nt_cvx, quick=1600, thorough=30000),
+    SubCheck("cvxpy", check_cvxpy, _cvx_case, nt_cvx, quick=5000, thorough=80000),
 ]
